@@ -164,7 +164,12 @@ CLAIMED = {
              "C15_discipline decides by kernel evaluation that the table regenerated from data.py/dumpers.py (which "
              "lru_cache'd function has a mode key, what CALENDAR attributes its closure reads, which call sites pass "
              "CALENDAR.mode) satisfies the discipline; C15_modes: the seven spellings install exactly the four calendars "
-             "of the property text. Histories over the API, --calendar and ISODATETIMECALENDAR are compared with fresh "
+             "of the property text; Props/C15algo: the calendar FUNCTIONS re-translated from data.py on every run "
+             "(get_is_leap_year, get_days_in_year, get_days_in_month) compute, for every integer year (year 0 and negative "
+             "years included) and month 1..12, exactly the lengths of the mode - twelve 30-day months, 365 always, 366 "
+             "always, the Gregorian 4/100/400 rule (C15_algo_leap_rule, _year_lengths, _month_lengths, _february, "
+             "_thirty_day_months, _fixed_calendars, _year_zero). Histories over the API, --calendar and ISODATETIMECALENDAR "
+             "(every accepted spelling of each mode, upper case included) are compared with fresh "
              "state in-process (quick) and fresh subprocesses (thorough).",
         design="DESIGN §8 C15",
         technique="Lean 4 proof (invariant by induction over histories) over a table regenerated from the source + history correspondence"),
@@ -231,7 +236,12 @@ CLAIMED = {
              "day within month/year/week-year, weekday, hour <= 24 with 24 only as 24:00:00 and zero fractions, minute/second "
              "< 60, legal one-signed offset); C09_text_total; C09_text_reject_examples / C09_text_mode_examples - kernel-decided "
              "tables of 47 + 16 impossible texts refused under every table and configuration, with their nearest valid twins "
-             "accepted, per calendar mode. C09_exceptions decides over the regenerated table that every raise site raises a "
+             "accepted, per calendar mode. Truncated constructor (Props/C09c, model mkTruncTP of TimePoint(truncated=True, "
+             "[truncated_property, short year], ...)): C09_trunc_accept_complete (accepted iff a readable decidable predicate), "
+             "C09_trunc_accept_sound (every kept field legal for the mode, at most one date notation), C09_trunc_year_sound, "
+             "C09_trunc_short_year_possible (an accepted date with a year of century / decade exists in SOME year ending in "
+             "those digits) / C09_trunc_no_year_possible, C09_trunc_conflicts, C09_trunc_keeps, C09_trunc_reported_year, "
+             "boundary witnesses per mode; op mktrunc compares the constructor with the model. C09_exceptions decides over the regenerated table that every raise site raises a "
              "class whose live MRO contains ValueError. PARTIAL: 'never another exception type, never a hang' of the Python "
              "on arbitrary text is observed on mutation/splice/garbage streams through the three parsers in 11 configurations "
              "(known findings F10 cost, F11 TypeError), not proved.",
